@@ -101,6 +101,10 @@ type c05F struct {
 	paths *c05Paths // what exists on disk (for drag histories)
 	toks  []string  // the event list for the model, when the history is model-comparable
 	trig  []byte    // the last raw chunk with a trigger that a real trz/tsz child printed
+	// the chunks fed around the client's own ctrl-C, what the terminal showed of them, transfers started (c05e.go)
+	winChunks, winShown [][]byte
+	winActs             int
+	winOK               bool
 }
 
 func c05New(o trzsz.TrzszOptions) *c05F {
@@ -1432,6 +1436,8 @@ func genC05History(c *ctx) {
 		opts                trzsz.TrzszOptions
 		args                []string // the model line (model-comparable histories)
 		result              string
+		winArgs             []string // the model line of the interrupt window (c05_window)
+		winRes              string
 	}
 	var jobs []*job
 	for r := 0; r < reps; r++ {
@@ -1449,7 +1455,7 @@ func genC05History(c *ctx) {
 		if c05NoDrag {
 			break
 		}
-		dh := c05DragHistories()
+		dh := append(c05DragHistories(), c05WindowHistories()...)
 		keep := map[int]bool{}
 		for _, k := range c.rng.Perm(len(c05Keys))[:4] {
 			keep[k] = true
@@ -1501,6 +1507,10 @@ func genC05History(c *ctx) {
 		} else {
 			j.after = x.probe(rng, o, 24)
 		}
+		if x.winOK {
+			j.winArgs = []string{"0", hxs(x.winChunks)}
+			j.winRes = fmt.Sprintf("%s|%d", hxs(x.winShown), x.winActs)
+		}
 		x.close()
 	}
 	parallelDo(len(jobs), 24, func(i int) { runJob(jobs[i]) })
@@ -1515,6 +1525,9 @@ func genC05History(c *ctx) {
 		if j.args != nil {
 			c.emit(true, "c05_run", j.result, j.args...)
 		}
+		if j.winArgs != nil {
+			c.emit(true, "c05_window", j.winRes, j.winArgs...)
+		}
 		if j.before != "" {
 			c.violate("probe-before:"+j.h.name, "a fresh wrapper did not pass a probe through", fmt.Sprintf("options=%04b seed=%d: %s", j.oi, j.seed, j.before))
 		}
@@ -1522,7 +1535,15 @@ func genC05History(c *ctx) {
 			c.violate("probe-after:"+j.h.name, "after a session that ended with '"+j.h.name+"' the wrapper is not transparent again",
 				fmt.Sprintf("options=%04b seed=%d: %s", j.oi, j.seed, j.after))
 		}
-		if strings.HasPrefix(j.scen, "REDISPLAY: ") {
+		if j.scen == "LATE" {
+			c.count("history-inconclusive:" + j.h.name)
+			j.scen = ""
+		}
+		if strings.HasPrefix(j.scen, "WINDOW: ") {
+			// DIRECT ORACLE: detection comes before the drop of the 200 ms after the client's ctrl-C
+			c.violate("interrupt-window:"+strings.TrimPrefix(j.h.name, "window:"), "server output in the 200 ms after the client's own ctrl-C: a fresh trigger must start exactly one transfer and be shown disarmed, other output of the window is hidden, afterwards everything passes",
+				fmt.Sprintf("options=%04b seed=%d: %s", j.oi, j.seed, strings.TrimPrefix(j.scen, "WINDOW: ")))
+		} else if strings.HasPrefix(j.scen, "REDISPLAY: ") {
 			// DIRECT ORACLE: an old trigger displayed again is output like any other
 			c.violate("redisplayed-trigger:"+j.h.name, "a trigger of a finished transfer that is displayed again is not passed through untouched (it starts a new transfer)",
 				fmt.Sprintf("options=%04b seed=%d SetAffectedByWindows(true): %s", j.oi, j.seed, strings.TrimPrefix(j.scen, "REDISPLAY: ")))
